@@ -413,15 +413,10 @@ func (r *ClusterReconciler) reconcileBrokerService(ctx context.Context, cluster 
 		if annotations := cluster.Spec.Brokers.Service.Annotations; len(annotations) > 0 {
 			svc.Annotations = copyStringMap(annotations)
 		}
-		if strings.TrimSpace(cluster.Spec.Brokers.Service.LoadBalancerIP) != "" {
-			svc.Spec.LoadBalancerIP = strings.TrimSpace(cluster.Spec.Brokers.Service.LoadBalancerIP)
-		}
-		if ranges := cluster.Spec.Brokers.Service.LoadBalancerSourceRanges; len(ranges) > 0 {
-			svc.Spec.LoadBalancerSourceRanges = append([]string(nil), ranges...)
-		}
-		if policy := parseExternalTrafficPolicy(cluster.Spec.Brokers.Service.ExternalTrafficPolicy); policy != "" {
-			svc.Spec.ExternalTrafficPolicy = policy
-		}
+		// Assigned unconditionally: a field cleared in the spec must not keep the value of an earlier reconcile.
+		svc.Spec.LoadBalancerIP = strings.TrimSpace(cluster.Spec.Brokers.Service.LoadBalancerIP)
+		svc.Spec.LoadBalancerSourceRanges = append([]string(nil), cluster.Spec.Brokers.Service.LoadBalancerSourceRanges...)
+		svc.Spec.ExternalTrafficPolicy = parseExternalTrafficPolicy(cluster.Spec.Brokers.Service.ExternalTrafficPolicy)
 		return controllerutil.SetControllerReference(cluster, svc, r.Scheme)
 	})
 	return err
